@@ -135,6 +135,14 @@ def run_case(case, chooser=None, window=None):
                 nw.node.send_message(conn, m)
                 nw.run()
                 queued[i] = m.as_bytes()
+        if extra in ("together", "together_iolast") and not force and len(ready_at_stop) >= 2:
+            # both peers' DPAs arrive in the same instant (one select round sees both; under the second policy both wake-up
+            # requests are queued before the I/O thread looks at the pipe)
+            if extra == "together_iolast":
+                nw.world.low_kind = "_handle_connections"
+            a, b = ready_at_stop[0], ready_at_stop[1]
+            if sc.apply(("x", idx[a], "dpa", idx[b], "dpa")):
+                dpa_time[a] = dpa_time[b] = nw.world.now
         for sec in range(0, wt + 9):
             # peers react to the DPR they have received
             for i in ready_at_stop:
@@ -195,7 +203,7 @@ def run_case(case, chooser=None, window=None):
                     vs.append(("shutdown:connection-not-closed-after-its-DPA", f"{desc}: connection {i}"))
                 elif closes[0][0] < dpa_time[i]:
                     vs.append(("shutdown:connection-closed-before-its-DPA-arrived", f"{desc}: connection {i} closed at {closes[0][0] - t0}, DPA at {dpa_time[i] - t0}"))
-                elif closes[0][0] > dpa_time[i] + 2 and (closes[0][0] < t0 + wt or extra == "flood"):
+                elif closes[0][0] > dpa_time[i] + 2 and (closes[0][0] < t0 + wt or extra in ("flood", "together", "together_iolast")):
                     vs.append(("shutdown:connection-not-closed-promptly-after-its-DPA", f"{desc}: connection {i} DPA at {dpa_time[i] - t0}, closed at {closes[0][0] - t0}"))
             if i in ready_at_stop and not force and reaction == "never" and closes and closes[0][0] < t0 + wt:
                 vs.append(("shutdown:connection-closed-before-DPA-or-timeout", f"{desc}: connection {i} closed at {closes[0][0] - t0}, timeout {wt}"))
@@ -282,6 +290,9 @@ def all_cases(tier):
     for states in ((), ("ready",), ("await_cer", "ready")):
         for force in (False, True):
             cases.append((states, "dpa_now" if states and not force else "never", force, 2, None if not states else 0, False, "multi_listen"))
+    for ex in ("together", "together_iolast"):
+        cases.append((("ready", "ready"), "dpa_now", False, 5, None, False, ex))
+        cases.append((("waiting_dwa", "ready"), "dpa_now", False, 5, None, False, ex))
     cases.append((("ready", "ready"), "dpa_now", False, 5, None, False, "flood"))
     cases.append((("waiting_dwa", "ready"), "dpa_now", False, 5, None, False, "flood"))
     return cases
